@@ -265,10 +265,15 @@ class Explorer(object):
             # non-linear core orders variables by AST creation order; in a long-lived context that order is an
             # accident of the path's history, and the same query that comes back unknown after 120 s was sat
             # in 0.02 s when re-read from its own text.  Tried first (cheap), then the two in-context strategies.
-            order = ('reparse',) + order
+            order = (('reparse',) + order) if self.fresh_strategy != 'rlimit-first' else (order + ('reparse',))
             budget_ms = self.solver_timeout_ms
+            in_context_done = 0
             for k, strat in enumerate(order):
-                share = min(10000, budget_ms // 10) if strat == 'reparse' else (budget_ms if k == 1 else budget_ms // 2)
+                if strat == 'reparse':
+                    share = min(10000, budget_ms // 10)
+                else:
+                    share = budget_ms if in_context_done == 0 else budget_ms // 2      # full budget for the first in-context strategy
+                    in_context_done += 1
                 timer = None
                 if strat == 'reparse':
                     try:
